@@ -1,9 +1,10 @@
 #!/bin/sh
 # usage: run_witnesses.sh [-run regexp] : runs the defect witnesses against /repo's working tree via -overlay
-cd /repo || exit 2
+R=${VERIF_REPO:-/repo}
+cd $R || exit 2
 export GOFLAGS=-mod=mod GOPROXY=off GOSUMDB=off GOTOOLCHAIN=local
 ov=$(mktemp /tmp/verif-ov.XXXXXX.json)
-printf '{"Replace":{"/repo/zz_verif_witness_test.go":"/verif/replay/witnesses/defects_test.go"}}' > "$ov"
+printf '{"Replace":{"'"$R"'/zz_verif_witness_test.go":"/verif/replay/witnesses/defects_test.go"}}' > "$ov"
 go test -overlay "$ov" -vet=off -count=1 -timeout 120s "$@" .
 rc=$?
 rm -f "$ov"
